@@ -51,6 +51,8 @@ pub struct Line {
     pub trailing_spaces: u8,
 }
 
+const EDGE: &[&str] = &["\"", "\"\"\"", "'", "'''", "\\", "\\{", "}", "a", "\n", "#[", "]#"];
+
 #[derive(Serialize, Deserialize, Clone, Debug)]
 pub enum Case {
     /// arbitrary text (totality)
@@ -436,6 +438,29 @@ impl Property for C08 {
     }
     fn cases(&self, tier: Tier) -> usize {
         tier.pick(40_000, 1_500_000)
+    }
+    /// every string of up to 4 (quick) / 5 (thorough) units over the string-edge alphabet,
+    /// alone and after `s = `: unterminated / half-closed literals, escapes and
+    /// interpolations at the end of the input
+    fn fixed_cases(&self, tier: Tier) -> Vec<Case> {
+        let maxlen = tier.pick(4, 5);
+        let mut v = vec![];
+        let mut cur: Vec<Vec<usize>> = vec![vec![]];
+        for _ in 0..maxlen {
+            let mut next = vec![];
+            for p in &cur {
+                for k in 0..EDGE.len() {
+                    let mut q = p.clone();
+                    q.push(k);
+                    let t: String = q.iter().map(|i| EDGE[*i]).collect();
+                    v.push(Case::Text(t.clone()));
+                    v.push(Case::Text(format!("s = {t}")));
+                    next.push(q);
+                }
+            }
+            cur = next;
+        }
+        v
     }
     fn mode(&self) -> Mode {
         Mode::Workers
